@@ -98,6 +98,10 @@ MUTANTS = [
     ('C13', 'lexer-state-copy-shares-line-counter', [R('lark/lexer.py', 'return type(self)(self.text, copy(self.line_ctr), self.last_token)', 'return type(self)(self.text, self.line_ctr, self.last_token)')]),
     ('C13', 'copy-keeps-original-lexer-thread', [R('lark/parsers/lalr_interactive_parser.py', '        parser_state.lexer = lexer_thread\n', '')]),
     ('C13', 'accepts-ignores-end', [R('lark/parsers/lalr_interactive_parser.py', "            if t.isupper(): # is terminal?", "            if t.isupper() and t != '$END': # is terminal?")]),
+    ('C13', 'on-error-skips-two-characters', [R('lark/parsers/lalr_parser.py', 's.line_ctr.feed(s.text.text[p:p+1])', 's.line_ctr.feed(s.text.text[p:p+2])')]),
+    ('C13', 'resume-forgets-last-token', [R('lark/parsers/lalr_interactive_parser.py', 'last_token=self.lexer_thread.state.last_token', 'last_token=None')]),
+    ('C13', 'feed-token-rolls-back-shallowly', [R('lark/parsers/lalr_interactive_parser.py', "        return self.parser_state.feed_token(token, token.type == '$END')\n",
+                                                 "        st = self.parser_state\n        cp = st.state_stack[:], st.value_stack[:]\n        try:\n            return st.feed_token(token, token.type == '$END')\n        except UnexpectedToken:\n            st.state_stack[:], st.value_stack[:] = cp\n            raise\n")]),
     ('C10', 'callback-table-published-half-built', [R('lark/lexer.py', '        terminals, callback = _create_unless(self.terminals, self.g_regex_flags, self.re, self.use_bytes)\n',
                                                     '        terminals, callback = _create_unless(self.terminals, self.g_regex_flags, self.re, self.use_bytes)\n        self.callback = callback\n')]),
     ('C10', 'parse-conf-cached-per-parser', [R('lark/parsers/lalr_parser.py', '        parse_conf = ParseConf(self.parse_table, self.callbacks, start)\n',
